@@ -200,6 +200,18 @@ static void *client(void *arg)
 }
 
 /* ------------------------------- projection ------------------------------- */
+/* thread events live on waiters' stacks (or in continuations): identified by address */
+#define MAXEV 4096
+static const volatile void *g_evaddr[MAXEV];
+static int g_nev;
+static int ev_id(const volatile void *a, int create)
+{
+	for (int i = 0; i < g_nev; i++) if (g_evaddr[i] == a) return i;
+	if (!create || g_nev >= MAXEV) return -1;
+	g_evaddr[g_nev] = a;
+	return g_nev++;
+}
+
 static void pabs(FILE *f, const char *k, uint64_t s)
 {
 	int64_t wb = (int64_t)((s & DISPATCH_QUEUE_WIDTH_MASK) >> DISPATCH_QUEUE_WIDTH_SHIFT);
@@ -238,7 +250,18 @@ static void proj(FILE *f, const vrt_rec_t *r)
 				(isitem && r->b >= 0 && r->b < 7) ? KN[r->b] : "-", (unsigned long long)r->seq);
 		break;
 	}
+	case VRT_PROBE: {
+		int id = ev_id(r->addr, 0);
+		if (id < 0 || strncmp(r->name, "futex_", 6)) break;   /* only futex calls on words known to be thread events */
+		fprintf(f, "{\"e\":\"Tf\",\"t\":%d,\"a\":%d,\"k\":\"%s\",\"v\":%d,\"b\":%ld}\n", r->tid, id, r->name, (int)(int32_t)r->a, r->b);
+		break;
+	}
 	case VRT_ATOMIC:
+		if (r->cls == 100) {
+			fprintf(f, "{\"e\":\"Te\",\"t\":%d,\"a\":%d,\"op\":\"%s\",\"mo\":\"%s\",\"old\":%d,\"new\":%d,\"f\":\"%s\"}\n", r->tid,
+					ev_id(r->addr, 1), r->site->dvs_op, r->site->dvs_mo, (int)(int32_t)r->oldv, (int)(int32_t)r->newv, r->site->dvs_func);
+			break;
+		}
 		if (r->cls == 2) {
 			/* item list of the queue: only the exchange of dq_items_tail is projected (who made the list non-empty) */
 			if (r->obj == g_obj && !strcmp(r->site->dvs_op, "xchg") && strstr(r->site->dvs_expr, "tail"))
@@ -322,6 +345,8 @@ int main(int argc, char **argv)
 	if (argc > 10) NT = atoi(argv[10]);
 	vrt_init(out, g_seed, perturb);
 	vrt_set_projector(proj);
+	vrt_add_class("dte_value", 100);     /* thread events: any address */
+	vrt_set_probe_filter(0);             /* futex probes on them are recorded (and perturbed) too */
 	vrt_add_class("dq_state", 1);
 	vrt_add_class("dq_items_tail", 2);
 	vrt_add_class("_os_mpsc_tail", 2);
